@@ -841,12 +841,17 @@ func fsInputs(tier string, seed uint64) []*fsInput {
 	}
 	decl := "sub vcl_recv {\n#FASTLY RECV\n   set req.http.X = \"a\"   \"b\";\n  if(req.http.Y){ esi; }\n      return(lookup);\n}\n\nacl a1 { \"10.0.0.0\"/8; }\n"
 	add("decl", "hand/decl", map[string]string{"a.vcl": decl}, []string{"a.vcl"})
+	add("decl", "hand/switch", map[string]string{"a.vcl": "sub vcl_recv {\n  switch (req.http.X) {\n      case \"a\":\n   set req.http.Y = \"1\";\n        break;\n  case ~ \"^b\":\n      esi;\n      fallthrough;\n    default:\n  set req.http.Y = \"d\";\n       break;\n  }\n    if (req.http.Z) {\n switch (req.http.Z) {\n case \"1\": break;\n default: break;\n }\n }\n}\n"}, []string{"a.vcl"})
 	add("formatted", "hand/formatted", map[string]string{"a.vcl": "sub vcl_recv {\n  #FASTLY RECV\n  esi;\n}\n"}, []string{"a.vcl"})
 	add("snippet", "hand/snippet", map[string]string{"a.vcl": "set req.http.X = \"a\";\nif (req.http.Y) { esi; }\n"}, []string{"a.vcl"})
 	add("invalid", "hand/invalid", map[string]string{"a.vcl": "sub vcl_recv { set req.http.X = ; }\n"}, []string{"a.vcl"})
 	add("empty", "hand/empty", map[string]string{"a.vcl": ""}, []string{"a.vcl"})
 	add("nonl", "hand/no-trailing-newline", map[string]string{"a.vcl": strings.TrimRight(decl, "\n")}, []string{"a.vcl"})
 	add("fmtcrash", "hand/error-bare", map[string]string{"a.vcl": "sub vcl_recv {\n  error;\n}\n"}, []string{"a.vcl"})
+	for _, n := range []int{239, 245, 250, 251} { // base name lengths around what still leaves room for a temporary sibling (NAME_MAX 255)
+		name := strings.Repeat("n", n-4) + ".vcl"
+		add("longname", fmt.Sprintf("hand/name-%d-bytes", n), map[string]string{name: decl}, []string{name})
+	}
 	var big strings.Builder
 	for i := 0; big.Len() < 1<<20; i++ {
 		fmt.Fprintf(&big, "sub s%d {\n set req.http.X%d =   \"v\" req.http.Y;\n  if (req.http.Z ~ \"^/a\") { esi; }\n}\n", i, i)
